@@ -168,3 +168,55 @@ def spec_capacity(free):
         if n >= 0 and n + hdr(n) <= free:
             best = max(best, n)
     return best
+
+
+class Retry(object):
+    """write of `d1` whose command number k (0-based) is lost (the exception reaches the
+    application), then `d2` assigned on the SAME NDEF object, the tag leaving the field after
+    j further commands (j None: complete).  Everything by the real code."""
+
+    def __init__(self, lay, d1, k, d2, j):
+        kind = lay["kind"]
+        self.kind, self.lay, self.d1, self.k, self.d2, self.j = kind, lay, bytes(d1), k, bytes(d2), j
+        self.base = bytes(lay["mem"])
+        sim = make_sim(lay, self.base)
+        nd = activate(sim).ndef
+        self.old = bytes(nd.octets)
+        sim.lose(k)
+        self.first = "ok"
+        try:
+            nd.octets = self.d1
+        except nfc.tag.TagCommandError:
+            self.first = "lost"
+        except Exception as e:  # noqa
+            self.first = "exc " + exc_name(e)
+        self.failed = self.first == "lost"
+        if not self.failed:
+            self.line = "nofail"
+            return
+        self.after_fail, _, ndf = read_line(kind, clone(sim))
+        self.seen_after_fail = None if ndf is None else bytes(ndf.octets)
+        sim.lose_at = None
+        sim.arm(j)
+        self.second = "ok"
+        try:
+            nd.octets = self.d2
+        except nfc.tag.TagCommandError:
+            self.second = "cut"
+        except Exception as e:  # noqa
+            self.second = "exc " + exc_name(e)
+        self.cmds = list(sim.writes)
+        self.final, _, nd2 = read_line(kind, clone(sim))
+        self.seen = None if nd2 is None else bytes(nd2.octets)
+        self.line = "%s | %s | %s" % (self.after_fail, show_cmds(self.cmds), self.final)
+
+    def request(self):
+        return "rt %s %s %s %d %s %d" % (self.kind, hx(self.base), hx(self.d1), self.k, hx(self.d2),
+                                         -1 if self.j is None else self.j)
+
+    def replay(self):
+        d = {"kind": self.kind, "memory": self.base.hex(), "first_message": self.d1.hex(), "lost_command": self.k,
+             "second_message": self.d2.hex(), "cut_after": self.j, "request": self.request()}
+        if self.kind != "t2":
+            d["header_rom"] = self.lay["hr"].hex()
+        return d
